@@ -21,6 +21,8 @@ let api_of_spec (name : string) (acts : string option) : api =
   | "fetchread" -> AFetchRead zs
   | "connread" -> AFetchRead zs
   | "connreadmsg" -> AFetchRead [z_of_int (-1)]
+  | "fetchnoseek" -> AFetch
+  | "connoffset" -> AHeartbeat   (* placeholder: handled before conn_do, sends nothing *)
   | _ -> api_of_name name
 
 let rec pr_val (v : val0) : string =
@@ -126,6 +128,14 @@ let eval (a : string list) : string =
     let toks = List.map (fun (api, ver, o) ->
       incr idx; conn_style := (try List.nth !names !idx with _ -> "");
       if !spun then "spin~0" else
+      if !conn_style = "connoffset" then begin
+        (* Conn.Offset(): FirstOffset (-1) -> (0, SeekStart), LastOffset (-2) -> (0, SeekEnd), else (o, SeekAbsolute) *)
+        let o = int_of_z (!st).offset in
+        "ok=" ^ (if o = -1 then "0,0" else if o = -2 then "0,2" else hex_of_z (!st).offset ^ ",1")
+        ^ "~" ^ (if (!st).closed then "1" else "0") end else
+      (* fetchnoseek: ReadBatchWith at the Conn's current offset; the peer reports the requested offset *)
+      let o = if !conn_style = "fetchnoseek" then { o with op_off = (!st).offset } else o in
+      let reqoff = (!st).offset in
       (* conn_do_i threads Conn.inflight; with a balanced counter it is conn_do (theorem
          C11_inflight_zero_detector_enabled) and never spins *)
       let (((st', n'), out), s') = conn_do_i (!st, !inflight) o !s in
@@ -133,7 +143,11 @@ let eval (a : string list) : string =
       if not (negotiate_ok api ver) then "NEGOTIATE-MISMATCH" else
       match out with
       | Spins -> spun := true; "spin~" ^ (if st'.closed then "1" else "0")
-      | Returns r -> pr_result api ver r ^ "~" ^ (if st'.closed then "1" else "0")) ops in
+      | Returns r ->
+        let r = (match r with
+            | ROk (VL [a; b]) when !conn_style = "fetchnoseek" -> ROk (VL [a; b; VZ reqoff])
+            | _ -> r) in
+        pr_result api ver r ^ "~" ^ (if st'.closed then "1" else "0")) ops in
     String.concat " " toks
   | _ -> "BADCASE"
 
